@@ -226,9 +226,9 @@ Section Main.
         [exact Hok|].
       destruct (vset (fd_field fd) v) as [nf|x] eqn:Ev; cbn [fst snd]; [|reflexivity].
       destruct (fd_immutable fd && alist_has a n); cbn [orb fst snd] in *; [reflexivity|].
-      apply andb_true_iff in Hs as [Hd Hh]. rewrite Hh. cbn [negb fst snd step_good].
+      destruct (hook_ok (c_hook c) (alist_set a n nf)) eqn:Hh; cbn [negb orb fst snd step_good] in *; [|reflexivity].
       apply struct_ok_set; [exact Hok | | exact Hh].
-      unfold attr_ok. cbn [fst snd]. rewrite Ef. unfold is_some in Hd.
+      unfold attr_ok. cbn [fst snd]. rewrite Ef. unfold is_some in Hs.
       destruct (docb (fd_field fd) nf); [reflexivity | discriminate].
     - destruct (c_additional c) eqn:Ea; cbn [fst snd]; [|reflexivity].
       destruct (c_ignore_none c && is_none_val v && negb (is_required c n)); cbn [fst snd step_good];
@@ -249,9 +249,9 @@ Section Main.
     destruct (c_ignore_none c && is_none_val v && negb (is_required c n)); cbn [orb] in *; [discriminate|].
     destruct (vset (fd_field fd) v) as [nf|x] eqn:Ev; [|discriminate].
     destruct (fd_immutable fd && alist_has a n); cbn [orb] in *; [discriminate|].
-    destruct (hook_ok (c_hook c) (alist_set a n nf)) eqn:Eh; cbn [negb fst snd step_good].
+    destruct (hook_ok (c_hook c) (alist_set a n nf)) eqn:Eh; cbn [negb orb fst snd step_good] in *; [|discriminate].
     - (* stored an invalid normal form *)
-      rewrite andb_true_r in Hs. intro Hg. rewrite struct_ok_unfold in Hg.
+      intro Hg. rewrite struct_ok_unfold in Hg.
       apply andb_true_iff in Hg as [Hg _]. apply andb_true_iff in Hg as [Hg _].
       apply andb_true_iff in Hg as [_ Hg]. rewrite forallb_forall in Hg.
       assert (Hin : In (n, nf) (alist_set a n nf)).
@@ -259,8 +259,21 @@ Section Main.
         destruct (pystr_eqb k' n) eqn:E; [apply pystr_eqb_spec in E; subst; left; reflexivity | right; exact IH]. }
       specialize (Hg _ Hin). unfold attr_ok in Hg. cbn [fst snd] in Hg. rewrite Ef in Hg.
       unfold is_some in Hs. destruct (docb (fd_field fd) nf); discriminate.
-    - (* the hook raised after the store *)
-      intro Hg. rewrite Hg in Eh. rewrite (struct_ok_hook c a Hok) in Eh. discriminate.
+  Qed.
+
+  (* ---------------------------------------------------------------- one deletion *)
+
+  (* del x[n] is validated and atomic, whatever the class, the state and the name *)
+  Lemma delitem_good c a n :
+    struct_ok c a = true ->
+    step_good c a (fst (mstep c a (DelItem n))) (snd (mstep c a (DelItem n))).
+  Proof.
+    intro Hok. cbn [Instance.mstep].
+    destruct (c_immutable c || field_immutable c n) eqn:Ei; cbn [orb fst snd]; [reflexivity|].
+    destruct (is_required c n) eqn:Er; cbn [fst snd orb]; [reflexivity|].
+    destruct (alist_has a n); cbn [fst snd step_good]; [|reflexivity].
+    destruct (hook_ok (c_hook c) (alist_del a n)) eqn:Eh; cbn [fst snd step_good]; [|reflexivity].
+    apply struct_ok_del; assumption.
   Qed.
 
   (* ---------------------------------------------------------------- one step *)
@@ -271,9 +284,7 @@ Section Main.
   Proof.
     intros Hwf Hok Hs. destruct op as [n v|n|n s base]; cbn [Instance.mstep Mutate.step_safe] in *.
     - apply setattr_good; assumption.
-    - destruct (is_required c n) eqn:Er; cbn [fst snd orb] in *; [reflexivity|].
-      destruct (alist_has a n); cbn [fst snd negb orb step_good] in *; [|reflexivity].
-      apply struct_ok_del; assumption.
+    - apply delitem_good; exact Hok.
     - destruct s as [g| | |]; try discriminate.
       destruct (g && (c_immutable c || field_immutable c n)); cbn [orb fst snd] in *; [reflexivity|].
       destruct base as [nv|x]; cbn [fst snd]; [|reflexivity].
@@ -322,25 +333,49 @@ Section Main.
     (step_good c a (fst (mstep c a (DelItem n))) (snd (mstep c a (DelItem n)))
      <-> step_safe c a (DelItem n) = true).
   Proof.
-    intro Hok. cbn [Instance.mstep Mutate.step_safe]. split.
-    - destruct (is_required c n) eqn:Er; cbn [orb fst snd]; [reflexivity|].
-      destruct (alist_has a n); cbn [negb orb fst snd step_good]; [|reflexivity].
-      intro G. apply struct_ok_hook; exact G.
-    - intro Hs. destruct (is_required c n) eqn:Er; cbn [orb fst snd] in *; [reflexivity|].
-      destruct (alist_has a n); cbn [negb orb fst snd step_good] in *; [|reflexivity].
-      apply struct_ok_del; assumption.
+    intro Hok. split; [intros _; reflexivity | intros _; apply delitem_good; exact Hok].
   Qed.
 
-  (* the non-atomic outcome, explicitly: validation passed, the value was stored, then the hook raised *)
-  Theorem hook_failure_not_atomic c a n v fd nf :
+  (* the hook rejecting a stored value, explicitly: validation passed, the value was stored, the hook raised,
+     the previous entry was put back *)
+  Theorem hook_failure_atomic c a n v fd nf :
     c_immutable c = false -> find_field (c_fields c) n = Some fd ->
     (c_ignore_none c && is_none_val v && negb (is_required c n)) = false ->
     vset (fd_field fd) v = Ok nf -> (fd_immutable fd && alist_has a n) = false ->
     hook_ok (c_hook c) (alist_set a n nf) = false ->
-    mstep c a (SetAttr n v) = (alist_set a n nf, Raised ValueError).
+    mstep c a (SetAttr n v) = (a, Raised ValueError).
   Proof.
     intros Hi Hf Hn Hv Him Hh. cbn [Instance.mstep]. unfold Instance.setattr.
     rewrite Hi, Hf, Hn, Hv, Him, Hh. reflexivity.
+  Qed.
+
+  (* failure atomicity needs no condition on the value at all: ANY assignment, deletion or call of a
+     copy-mutate-reassign mutator that raises leaves the attributes exactly as they were *)
+  Lemma setattr_raise_unchanged c a n v a' x :
+    setattr c true a n v = (a', Raised x) -> a' = a.
+  Proof.
+    unfold Instance.setattr.
+    destruct (c_immutable c && true); [intro H; inversion H; reflexivity|].
+    destruct (find_field (c_fields c) n) as [fd|].
+    - destruct (c_ignore_none c && is_none_val v && negb (is_required c n)); [intro H; inversion H|].
+      destruct (vset (fd_field fd) v) as [nf|y]; [|intro H; inversion H; reflexivity].
+      destruct (fd_immutable fd && alist_has a n); [intro H; inversion H; reflexivity|].
+      destruct (true && negb (hook_ok (c_hook c) (alist_set a n nf))); intro H; inversion H; reflexivity.
+    - destruct (c_additional c); [|intro H; inversion H; reflexivity].
+      destruct (c_ignore_none c && is_none_val v && negb (is_required c n)); intro H; inversion H.
+  Qed.
+
+  Theorem failure_atomic c a op a' x :
+    op_shape_safe op = true -> mstep c a op = (a', Raised x) -> a' = a.
+  Proof.
+    intros Hs. destruct op as [n v|n|n s base]; cbn [Instance.mstep].
+    - apply setattr_raise_unchanged.
+    - destruct (c_immutable c || field_immutable c n || is_required c n); [intro H; inversion H; reflexivity|].
+      destruct (alist_has a n); [|intro H; inversion H; reflexivity].
+      destruct (hook_ok (c_hook c) (alist_del a n)); intro H; inversion H; reflexivity.
+    - destruct s as [g| | |]; try discriminate.
+      destruct (g && (c_immutable c || field_immutable c n)); [intro H; inversion H; reflexivity|].
+      destruct base as [nv|y]; [apply setattr_raise_unchanged | intro H; inversion H; reflexivity].
   Qed.
 
   (* ---------------------------------------------------------------- histories *)
@@ -401,8 +436,8 @@ Section Main.
     destruct (find_field (c_fields c) n) as [fd|]; [|reflexivity].
     destruct (c_ignore_none c && is_none_val v && negb (is_required c n)); cbn [orb]; [reflexivity|].
     destruct (vset (fd_field fd) v); [|reflexivity].
-    unfold alist_has at 1. cbn [alist_get]. rewrite andb_false_r. cbn [orb].
-    intro H. rewrite H. apply orb_true_r.
+    unfold alist_has at 1. cbn [alist_get negb]. rewrite andb_false_r. cbn [orb].
+    intro H. rewrite H. rewrite !orb_true_r. reflexivity.
   Qed.
 
   Lemma op_safe_nohook_step c a op :
@@ -410,7 +445,7 @@ Section Main.
   Proof.
     intros Hh Hs. destruct op as [n v|n|n s base]; cbn [Mutate.op_safe_nohook Mutate.step_safe] in *.
     - apply assign_safe_nohook; assumption.
-    - rewrite Hh. cbn [hook_ok]. rewrite !orb_true_r. reflexivity.
+    - reflexivity.
     - destruct s as [g| | |]; try discriminate.
       destruct base as [nv|x]; [|apply orb_true_r].
       rewrite (assign_safe_nohook c a n nv Hh Hs). apply orb_true_r.
@@ -458,12 +493,15 @@ Proof.
   apply unsafe_shape_witness. apply negb_true_iff; exact H.
 Qed.
 
-Theorem hook_witness : violates (w_class w_hook) w_state w_hook_op.
-Proof.
-  split; [vm_compute; reflexivity|]. vm_compute. intro H. discriminate.
-Qed.
+(* the two former holes, on the closed witnesses that used to violate the statement: an assignment the hook
+   rejects (x.i = 9 with i <= j required) and a deletion the hook rejects (del x['i'] with i required to be set)
+   raise ValueError and leave the instance exactly as it was *)
+Theorem hook_rejection_atomic :
+  struct_ok no_re [] (w_class w_hook) w_state = true /\
+  mstep no_re [] (w_class w_hook) w_state w_hook_op = (w_state, Raised ValueError).
+Proof. split; vm_compute; reflexivity. Qed.
 
-Theorem del_hook_witness : violates (w_class w_del_hook) w_state w_del_op.
-Proof.
-  split; [vm_compute; reflexivity|]. vm_compute. discriminate.
-Qed.
+Theorem del_hook_rejection_atomic :
+  struct_ok no_re [] (w_class w_del_hook) w_state = true /\
+  mstep no_re [] (w_class w_del_hook) w_state w_del_op = (w_state, Raised ValueError).
+Proof. split; vm_compute; reflexivity. Qed.
